@@ -395,6 +395,12 @@ SELECTION_WRITERS = {
                               "%s_set_cpu_call_rcu_data": "documented setter", "%s_free_all_cpu_call_rcu_data": "teardown"},
 }
 
+REQUIRED_WRITERS = {
+    "thread_call_rcu_data": ["call_rcu_thread", "%s_set_thread_call_rcu_data", "%s_call_rcu_after_fork_child"],
+    "default_call_rcu_data": ["call_rcu_data_init", "urcu_call_rcu_exit", "%s_call_rcu_after_fork_child"],
+    "per_cpu_call_rcu_data": ["alloc_cpu_call_rcu_data", "%s_call_rcu_after_fork_child"],
+}
+
 
 def rule_who(ctx, rep):
     """T8: the state that decides which helper a call_rcu() caller enqueues to (per-thread pointer, per-CPU array pointer,
@@ -414,6 +420,11 @@ def rule_who(ctx, rep):
                         rep.touch(f)
             pat.require(found, "%s: no writer of %s found" % (fl, g))
             extra = sorted(set(found) - allowed)
+            required = set(k % F.pfx if "%s" in k else k for k in REQUIRED_WRITERS[g])
+            gone = sorted(required - set(found))
+            if extra and gone:
+                # a designated writer vanished and an unknown one appeared: most likely a rename / moved code, not a new writer
+                raise Broken("%s: writers of %s changed (%s gone, %s new): table needs re-confirmation" % (fl, g, gone, extra))
             rep.check(not extra, "C03.who", "%s.%s" % (fl, g), "%s written only by %s" % (g, sorted(found)),
                       "%s is also written in %s: helper-selection state modified outside its setters (a pointer cached here is not cleared when the helper is freed)" % (g, extra),
                       [found[x][0].where() for x in extra][:3])
